@@ -269,6 +269,9 @@ func TestC17_Rapid(t *testing.T) {
 	defer finish(t, rec)
 	runRapid(t, pick(30000, 200000), 17, func(rt *rapid.T) {
 		n := rapid.IntRange(1, 12).Draw(rt, "n")
+		if rapid.IntRange(0, 29).Draw(rt, "long") == 0 {
+			n = rapid.IntRange(100, 320).Draw(rt, "longn") // long histories: hundreds of registrations
+		}
 		var ops []c17Op
 		for i := 0; i < n; i++ {
 			switch rapid.IntRange(0, 9).Draw(rt, "kind") {
@@ -287,6 +290,8 @@ func TestC17_Rapid(t *testing.T) {
 		probes := append([]rune{}, c17AllProbes()...)
 		for _, o := range ops {
 			probes = append(probes, o.Start, o.End, o.Start-1, o.End+1)
+			// code points beyond the BMP whose low 16 bits fall into the range
+			probes = append(probes, 0x10000+o.Start, 0x10000+o.End, 0x20000+(o.Start+o.End)/2, 0x100000+o.Start)
 		}
 		for i := 0; i < 6; i++ {
 			probes = append(probes, rune(rapid.IntRange(-2, 0x11000).Draw(rt, "probe")))
